@@ -117,6 +117,12 @@ func Cleanup() *sx.Node             { return sx.L(sx.A("cleanup")) }
 func KillEnv(k int) *sx.Node        { return sx.L(sx.A("killenv"), sx.I(k)) }
 func Rel(k int) *sx.Node            { return sx.L(sx.A("rel"), sx.I(k)) }
 
+// Upd: the master sends one status update (state RUNNING | STARTING) about the task of role j of environment k, lacking the
+// optional fields named by omit (none | exec | agent | both), as a reconciliation answer (src recon) or an ordinary update (plain).
+func Upd(k, j int, state, omit, src string) *sx.Node {
+	return sx.L(sx.A("upd"), sx.I(k), sx.I(j), sx.A(state), sx.A(omit), sx.A(src))
+}
+
 // Idle: the harness lets ms milliseconds pass.
 func Idle(ms int) *sx.Node { return sx.L(sx.A("idle"), sx.I(ms)) }
 
